@@ -4,13 +4,13 @@ import UtilModel.Keyed.Proofs
 -/
 namespace UtilModel.Keyed
 
-theorem st_abs (s : St) (k : Nat) : (abs s).st k = absKey s.epoch (s.key k) := rfl
+theorem st_abs (s : St) (k : Nat) : (abs s).st k = absKey (s.key k) := rfl
 theorem nctor_abs (s : St) (k : Nat) : (abs s).nctor k = s.ctors k := rfl
 
 /-- after `createKey` (+ a possible start) -/
 theorem abs_created (s s' : St) (k : Nat) (hn : s.key k = none) (T : Touch k (createKey s k) s') :
     abs s' = request (abs s) k ∧ ((abs s').st k).data = s.ctors k + 1 := by
-  have hv : absKey s.epoch (s'.key k) = .present (s.ctors k + 1) := by
+  have hv : absKey (s'.key k) = .present (s.ctors k + 1) := by
     rw [absKey_core, T.same, key_createKey]; simp [core, absCore]
   have h := abs_upd s s' ((frame_createKey s k).trans T.frame) k (.present (s.ctors k + 1)) (s.ctors k + 1)
     (fun k' hk => by rw [T.other k' hk, key_createKey]; simp [hk])
@@ -20,33 +20,33 @@ theorem abs_created (s s' : St) (k : Nat) (hn : s.key k = none) (T : Touch k (cr
   have ha : (abs s).st k = .absent := by simp [st_abs, hn, absKey]
   refine ⟨?_, ?_⟩
   · rw [h]; simp [request, reqSt, reqCtor, ASt.inSet, ha, KSt.inSet, nctor_abs]
-  · rw [st_abs, T.frame.epoch.trans (frame_createKey s k).epoch, hv]; rfl
+  · rw [st_abs, hv]; rfl
 
 /-- after clearing a pending removal of an existing key (+ a possible start) -/
-theorem abs_kept (s s' : St) (k : Nat) (r : Rec) (hd : NoDueRm s) (hr : s.key k = some r)
+theorem abs_kept (s s' : St) (k : Nat) (r : Rec) (hr : s.key k = some r)
     (T : Touch k (setRec s k (some { r with deferRemove := none })) s') :
     abs s' = request (abs s) k ∧ ((abs s').st k).data = r.data := by
-  have hv : absKey s.epoch (s'.key k) = .present r.data := by
+  have hv : absKey (s'.key k) = .present r.data := by
     rw [absKey_core, T.same]; simp [core, absCore]
   have h := abs_upd s s' ((frame_setRec s k _).trans T.frame) k (.present r.data) (s.ctors k)
     (fun k' hk => by rw [T.other k' hk]; simp [hk])
     hv
     (fun k' _ => by rw [T.ctors]; rfl)
     (by rw [T.ctors]; rfl)
-  have hin : (abs s).inSet k = true := by rw [inSet_abs s hd, hr]; rfl
+  have hin : (abs s).inSet k = true := by rw [inSet_abs s, hr]; rfl
   have ha : reqSt (abs s) k = .present r.data := by
     simp only [reqSt, st_abs, hr, absKey]
     cases hdr : r.deferRemove with
     | none => rfl
-    | some e => simp [hd k r e hr hdr]
+    | some e => simp []
   refine ⟨?_, ?_⟩
   · rw [h]; simp [request, ha, reqCtor, hin, nctor_abs]
-  · rw [st_abs, T.frame.epoch.trans (frame_setRec s k _).epoch, hv]; rfl
+  · rw [st_abs, hv]; rfl
 
-theorem setKey_refines (s : St) (k : Nat) (st : Bool) (hd : NoDueRm s) :
+theorem setKey_refines (s : St) (k : Nat) (st : Bool) :
     abs (setKey s k st).1 = request (abs s) k ∧
     (setKey s k st).2.2 = (((abs (setKey s k st).1).st k).data, (abs s).inSet k) := by
-  have hin := inSet_abs s hd k
+  have hin := inSet_abs s k
   unfold setKey
   cases hr : s.key k with
   | none =>
@@ -62,7 +62,7 @@ theorem setKey_refines (s : St) (k : Nat) (st : Bool) (hd : NoDueRm s) :
       split
       · exact touch_startKey _ k false
       · exact Touch.refl k _
-    have := abs_kept s _ k r hd hr T
+    have := abs_kept s _ k r hr T
     refine ⟨this.1, ?_⟩
     rw [this.2, hin, hr]; rfl
 
@@ -74,14 +74,14 @@ theorem upd_self {α : Type} (f : Nat → α) (k : Nat) : upd f k (f k) = f := b
 theorem dismiss_noop (a : ASt) (f : Bool) (k : Nat) (h : disSt a f k = a.st k) : dismiss a f k = a := by
   simp only [dismiss, h, upd_self]
 
-theorem abs_remove (s : St) (k : Nat) (r : Rec) (hd : NoDueRm s) (hr : s.key k = some r) :
+theorem abs_remove (s : St) (k : Nat) (r : Rec) (hr : s.key k = some r) :
     abs (remove s k r) = dismiss (abs s) (failedOf s k) k := by
   unfold remove
   cases hdr : r.deferRemove with
   | some e =>
     simp only [Option.isSome_some, if_true]
     rw [dismiss_noop]
-    simp [disSt, st_abs, hr, absKey, hdr, hd k r e hr hdr]
+    simp [disSt, st_abs, hr, absKey, hdr]
   | none =>
     have hst : (abs s).st k = .present r.data := by simp [st_abs, hr, absKey, hdr]
     have hfail : failedOf s k = (r.exited && !r.success) := by simp [failedOf, hr]
@@ -122,9 +122,9 @@ theorem abs_remove (s : St) (k : Nat) (r : Rec) (hd : NoDueRm s) (hr : s.key k =
       congr 1
       exact upd_self _ _
 
-theorem removeKey_refines (s : St) (k : Nat) (hd : NoDueRm s) :
+theorem removeKey_refines (s : St) (k : Nat) :
     abs (removeKey s k).1 = dismiss (abs s) (failedOf s k) k ∧ (removeKey s k).2 = (abs s).inSet k := by
-  have hin := inSet_abs s hd k
+  have hin := inSet_abs s k
   unfold removeKey
   cases hr : s.key k with
   | none =>
@@ -134,7 +134,7 @@ theorem removeKey_refines (s : St) (k : Nat) (hd : NoDueRm s) :
     simp [disSt, st_abs, hr, absKey]
   | some r =>
     simp only []
-    exact ⟨abs_remove s k r hd hr, by rw [hin, hr]; rfl⟩
+    exact ⟨abs_remove s k r hr, by rw [hin, hr]; rfl⟩
 
 /-! ## ResetRoutine, RestartRoutine -/
 
@@ -182,16 +182,16 @@ theorem frame_resetKey (s : St) (k : Nat) : Frame s (resetKey s k).1 := by
 
 theorem abs_of_sigma (s s' : St) (hf : Frame s s') (m : Nat → Option (Nat × Option Nat)) (c : Nat → Nat)
     (hm : ∀ k, core (s'.key k) = m k) (hc : ∀ k, s'.ctors k = c k) :
-    abs s' = { abs s with st := fun k => absCore s.epoch (m k), nctor := c } := by
-  have h1 : (fun k => absKey s'.epoch (s'.key k)) = fun k => absCore s.epoch (m k) := by
-    funext k; rw [absKey_core, hf.epoch, hm]
+    abs s' = { abs s with st := fun k => absCore (m k), nctor := c } := by
+  have h1 : (fun k => absKey (s'.key k)) = fun k => absCore (m k) := by
+    funext k; rw [absKey_core, hm]
   have h2 : s'.ctors = c := funext hc
   unfold abs delayOn
   rw [h1, h2, hf.cfg, hf.ctx, hf.epoch, hf.refs]
 
-theorem resetKey_refines (s : St) (k : Nat) (hd : NoDueRm s) :
+theorem resetKey_refines (s : St) (k : Nat) :
     abs (resetKey s k).1 = renew (abs s) k ∧ (resetKey s k).2.2 = (abs s).inSet k := by
-  have hin := inSet_abs s hd k
+  have hin := inSet_abs s k
   refine ⟨?_, ?_⟩
   · rw [abs_of_sigma s _ (frame_resetKey s k) _ _ (core_resetKey s k) (ctors_resetKey s k)]
     simp only [renew, renSt, renCtor, hin]
